@@ -66,22 +66,41 @@ OPNAME = {"F": "fit", "P": "predict", "K": "pickle", "C": "clone"}
 
 
 # ------------------------------------------------------------------ data
-def _tab_data(r, which, n=14):
-    a = [r.randint(0, 2) for _ in range(n)]
-    b = [r.randint(0, 1) for _ in range(n)]
-    sf = ["g" if i % 2 == 0 else "h" for i in range(n)]
-    r.shuffle(sf)
+# structural variants of D2 relative to D1: (sensitive groups, column order, same X with other labels)
+VARIANTS = [("same", "same", False), ("sub", "same", False), ("super", "swap", False), ("same", "swap", False),
+            ("same", "same", True), ("sub", "swap", False), ("super", "same", False)]
+
+
+def _tab_data(r, which, groups=("g", "h"), cols=("a", "b"), base=None):
+    n = 6 * len(groups) + 2
+    if base is not None:            # the SAME rows as D1 (same length, features, groups), other labels
+        a, b, sf = list(base["a"]), list(base["b"]), list(base["sf"])
+    else:
+        a = [r.randint(0, 2) for _ in range(n)]
+        b = [r.randint(0, 1) for _ in range(n)]
+        sf = [groups[i % len(groups)] for i in range(n)]
+        r.shuffle(sf)
     y = []
     for i in range(n):
-        base = (a[i] >= 1) if which == 1 else (a[i] == 0)
+        lab = (a[i] >= 1) if which == 1 else (a[i] == 0)
         if r.chance(1, 6):
-            base = not base
-        y.append(int(base))
-    for g in ("g", "h"):
+            lab = not lab
+        y.append(int(lab))
+    for g in groups:
         idx = [i for i in range(n) if sf[i] == g]
         if len({y[i] for i in idx}) < 2:
             y[idx[0]] = 1 - y[idx[0]]
-    return {"a": a, "b": b, "sf": sf, "y": y}
+    return {"a": a, "b": b, "sf": sf, "y": y, "cols": list(cols)}
+
+
+def _tab_pair(r, variant):
+    grp, order, xsame = variant
+    g1, g2 = {"same": (("g", "h"), ("g", "h")), "sub": (("g", "h", "k"), ("g", "h")),
+              "super": (("g", "h"), ("g", "h", "k"))}[grp]
+    d1 = _tab_data(r, 1, groups=g1)
+    d2 = _tab_data(r, 2, groups=g2, cols=("b", "a") if order == "swap" else ("a", "b"),
+                   base=d1 if xsame else None)
+    return {"D1": d1, "D2": d2}
 
 
 def _mat_data(r, which, n, width, kind):
@@ -105,13 +124,16 @@ def _mat_data(r, which, n, width, kind):
     return d
 
 
-def _make_data(fam, r, extra_width=False):
+def _make_data(fam, r, extra_width=False, variant=VARIANTS[0], named=False):
     if fam in ("to", "eg", "gs"):
-        return {"D1": _tab_data(r, 1), "D2": _tab_data(r, 2)}
+        return _tab_pair(r, variant)
     if fam == "cr":
         d = {"D1": _mat_data(r, 1, 10, 3, "cr"), "D2": _mat_data(r, 2, 10, 3, "cr")}
         if extra_width:
             d["D3"] = _mat_data(r, 1, 10, 4, "cr")
+        if named:       # DataFrames, sensitive column given by NAME; D2 has the same columns in another order
+            d["D1"]["cols"] = ["s", "u", "v"]
+            d["D2"]["cols"] = r.choice([["v", "s", "u"], ["u", "v", "s"], ["v", "u", "s"], ["s", "v", "u"]])
         return d
     return {"D1": _mat_data(r, 1, 12, 3, fam), "D2": _mat_data(r, 2, 12, 3, fam)}
 
@@ -137,6 +159,8 @@ def _tweak(fam, cfg, r):
     else:
         cfg["constraints"] = r.choice(["demographic_parity", "equalized_odds"])
         cfg["random_state"] = r.randint(1, 50)
+        if cfg.get("module"):
+            cfg["module_seed"] = r.randint(1, 50)
     return cfg
 
 
@@ -172,8 +196,10 @@ def cases(tier, seed):
         ops = ADV_OPS if fam.startswith("adv") else STD_OPS
         for gi, (key, hists) in enumerate(sorted(_groups(ops, L, tier).items())):
             r = Rng(seed, PID, fam, ci, gi)
+            var = VARIANTS[(gi + ci) % len(VARIANTS)]
             c = {"fam": fam, "cfg": _tweak(fam, cfg0, r), "pcode": 100 * (ci + 1) + gi % 100,
-                 "data": _make_data(fam, r), "hists": hists, "group": "/".join(key)}
+                 "data": _make_data(fam, r, variant=var), "hists": hists, "group": "/".join(key),
+                 "variant": "/".join(map(str, var)) if fam in ("to", "eg", "gs") else "values"}
             if fam == "eg" and cfg0["nu"] == "none" and key[0] == "short":
                 c["check_nu_equiv"] = True
             out.append(c)
@@ -183,6 +209,22 @@ def cases(tier, seed):
         r = Rng(seed, PID, "cr-schema", gi)
         out.append({"fam": "cr", "cfg": _tweak("cr", {"schema": 1}, r), "pcode": 1100 + gi,
                     "data": _make_data("cr", r, extra_width=True), "hists": hists, "group": "schema/" + "/".join(key)})
+    # shorter histories (length <= 2, thorough: <= 3) for the configurations added for the review:
+    #  - ExponentiatedGradient with a user-supplied objective OBJECT (nu given: F7a does not interfere)
+    #  - CorrelationRemover fed DataFrames, sensitive column by NAME, D2 = same columns in another order
+    #  - adversarial estimators whose predictor is a user torch Module with BatchNorm1d + Dropout
+    L2 = 2 if tier == "quick" else 3
+    extra = [("eg", {"lp": 1, "nu": "given", "objective": 1}), ("eg", {"lp": 0, "nu": "given", "objective": 1}),
+             ("cr", {"named": 1}), ("advc", {"module": 1}), ("advr", {"module": 1})]
+    for xi, (fam, cfg0) in enumerate(extra):
+        ops = ADV_OPS if fam.startswith("adv") else STD_OPS
+        for gi, (key, hists) in enumerate(sorted(_groups(ops, L2, tier).items())):
+            r = Rng(seed, PID, "extra", fam, xi, gi)
+            var = VARIANTS[(gi + xi) % len(VARIANTS)]
+            out.append({"fam": fam, "cfg": _tweak(fam, cfg0, r), "pcode": 2000 + 100 * xi + gi,
+                        "data": _make_data(fam, r, variant=var, named=bool(cfg0.get("named"))), "hists": hists,
+                        "group": "extra/" + "/".join(key),
+                        "variant": "/".join(map(str, var)) if fam == "eg" else "values"})
     # warm_start=True continues training (model clause; outside the property's scope)
     for fi, fam in enumerate(("advc", "advr")):
         for gi, (key, hists) in enumerate(sorted(_groups(ADV_OPS, 2 if tier == "quick" else 3, "thorough").items())):
@@ -226,7 +268,8 @@ def term(case, out):
         return f"run_eg {p} {nu} {hs}"
     if fam == "cr":
         return f"run_corr {p} {glist(_widths(case), gz)} {hs}"
-    return f"run_adv ({p}, {gbool(case['cfg'].get('warm_start', False))}) {hs}"
+    return (f"run_adv ({p}, ({gbool(case['cfg'].get('warm_start', False))}, "
+            f"{gbool(case['cfg'].get('module', False))})) {hs}")
 
 
 def decode(case, zs):
@@ -242,6 +285,8 @@ def decode(case, zs):
         elif fam.startswith("adv"):
             o["p"] = d.z()
             o["ws"] = d.bool()
+            o["um"] = d.bool()
+            o["mod"] = d.opt(lambda: (d.z(), d.list(d.z)))      # state of the user module (None: lists)
             o["model"] = d.opt(lambda: (d.z(), d.list(d.z)))
         else:
             o["p"] = d.z()
@@ -264,6 +309,8 @@ def _model_ref(case, m):
         return f"g|{dd}" if tag == 0 else f"{val}|{dd}"
     if fam.startswith("adv"):
         init, seq = m
+        if case["cfg"].get("module"):       # the user module (initial state 0) trained on seq, in place
+            return ("m:" if init == 0 else f"?init{init}:") + ">".join(map(str, seq))
         if not seq or seq[0] != init:
             return f"?init{init}:" + ">".join(map(str, seq))
         return ">".join(map(str, seq))
@@ -273,7 +320,18 @@ def _model_ref(case, m):
 def _fresh_ref(case, j):
     if case["fam"] == "eg":
         return f"g|{j}" if case["cfg"]["nu"] == "given" else f"{j}|{j}"
+    if case["cfg"].get("module"):
+        return f"m:{j}"
     return str(j)
+
+
+def _known_sig(case, E):
+    """signature of the recorded finding 'fit overwrites a constructor parameter' for this configuration"""
+    if E == "ExponentiatedGradient":
+        return KNOWN_NU
+    if case["cfg"].get("module"):
+        return f"{PID}/{E}/get_params.predictor_model/param-overwritten-by-fit"
+    return None
 
 
 def _in_scope(case, hist, i):
@@ -341,6 +399,17 @@ def compare(case, out, model):
                             prop_bad = True
                             add(f"{PID}/{E}/predict/not-repeatable", f"{where}: two identical predict calls differ",
                                 "same arguments and seed, same answer", "property")
+                        adv = o.get("adv") or {}
+                        if adv and not adv.get("state_dict_same"):
+                            prop_bad = True
+                            add(f"{PID}/{E}/fitted-model/state_dict-changed-by-predict",
+                                f"{where}: predict / _raw_predict changed the networks' state_dict",
+                                "predictor and adversary state_dict bit-identical across predict", "property")
+                        if adv and not (adv.get("raw_same") and adv.get("pred_same")):
+                            prop_bad = True
+                            add(f"{PID}/{E}/predict/not-repeatable",
+                                f"{where}: two consecutive predict / _raw_predict calls differ ({adv})",
+                                "same arguments, same answer", "property")
                         if not o.get("pure"):
                             prop_bad = True
                             add(f"{PID}/{E}/fitted-model/changed-by-predict",
@@ -364,11 +433,24 @@ def compare(case, out, model):
                 for k in o["pdiff"]:
                     if k not in prev_p:
                         prop_bad = True
-                        explained = (E == "ExponentiatedGradient" and k == "nu" and m is not None
-                                     and m["nu"] is not None and m["nu"][0] == 1 and str(m["nu"][1]) in o.get("nu", []))
-                        add(f"{PID}/{E}/get_params.{k}/param-overwritten-by-{OPNAME[kind]}",
-                            f"{where}: get_params()[{k!r}] no longer has the constructor value"
-                            + (" (None -> value computed by fit, as the model says)" if explained else ""),
+                        sig = f"{PID}/{E}/get_params.{k}/param-overwritten-by-{OPNAME[kind]}"
+                        note = ""
+                        if (E, k) == ("ExponentiatedGradient", "nu") or \
+                                (case["cfg"].get("module") and k in ("predictor_model", "adversary_model")):
+                            # the two recorded findings: only as far as the model's account explains them
+                            if m is None:
+                                explained = mobs is None
+                            elif k == "nu":
+                                explained = (m["nu"] is not None and m["nu"][0] == 1
+                                             and str(m["nu"][1]) in o.get("nu", []))
+                            else:
+                                explained = kind == "F" and m.get("mod") is not None and len(m["mod"][1]) > 0
+                            if explained:
+                                sig = _known_sig(case, E)
+                                note = " (exactly as Lifecycle.v says: fit writes this constructor parameter)"
+                            else:
+                                sig += "-not-as-modelled"
+                        add(sig, f"{where}: get_params()[{k!r}] no longer has the constructor value" + note,
                             "get_params equals the constructor arguments", "property")
                 for k in o["idiff"]:
                     if k not in prev_i:
@@ -399,9 +481,10 @@ def compare(case, out, model):
                         if want not in f:
                             prop_bad = True
                             mref = _model_ref(case, m["model"]) if m is not None else None
-                            if E == "ExponentiatedGradient" and mref is not None and mref != want and mref in f:
-                                add(KNOWN_NU, f"{where}: the refit used the nu computed by an earlier fit "
-                                    f"(equals a fresh estimator given that nu: {mref}), not a fresh fit's",
+                            if _known_sig(case, E) and mref is not None and mref != want and mref in f:
+                                add(_known_sig(case, E), f"{where}: the refit started from the constructor "
+                                    f"parameter overwritten by an earlier fit (equals the fresh estimator the "
+                                    f"model names: {mref}), not from the constructor's value",
                                     f"fingerprint of a fresh estimator fitted once on D{fitted}", "property")
                             else:
                                 cls = "refit-differs-from-fresh" if i > 0 else "fresh-fit-not-reproducible"
@@ -424,9 +507,16 @@ def compare(case, out, model):
                     diffs.append(("fit-return", f"implementation {o.get('self')} model {m['self']}"))
                 if m["p"] != case["pcode"]:
                     diffs.append(("get_params", "model parameters differ from the constructor's"))
-                others = [k for k in o["pdiff"] if not (E == "ExponentiatedGradient" and k == "nu")]
+                mod_cfg = bool(case["cfg"].get("module"))
+                others = [k for k in o["pdiff"] if not (E == "ExponentiatedGradient" and k == "nu")
+                          and not (mod_cfg and k == "predictor_model")]
                 if others:
                     diffs.append(("get_params", f"implementation changed {others}, model none"))
+                if case["fam"].startswith("adv"):
+                    trained = m.get("mod") is not None and len(m["mod"][1]) > 0
+                    if ("predictor_model" in o["pdiff"]) != trained:
+                        diffs.append(("get_params.predictor_model",
+                                      f"implementation changed: {'predictor_model' in o['pdiff']}, model: {trained}"))
                 if E == "ExponentiatedGradient":
                     lab = "none" if m["nu"] is None else ("given" if m["nu"][0] == 0 else str(m["nu"][1]))
                     if lab not in o.get("nu", []):
@@ -447,9 +537,10 @@ def compare(case, out, model):
 
 def tags(case, out, model):
     t = [f"family:{case['fam']}", f"cfg:{case['fam']}:" + ",".join(f"{k}={case['cfg'][k]}" for k in
-                                                                  ("variant", "lp", "nu", "warm_start", "schema")
+                                                                  ("variant", "lp", "nu", "objective", "named", "module", "warm_start", "schema")
                                                                   if k in case["cfg"]),
-         f"histories:{len(case['hists'])}", f"refs-distinct:{out.get('distinct')}"]
+         f"histories:{len(case['hists'])}", f"refs-distinct:{out.get('distinct')}",
+         f"D2-vs-D1:{case.get('variant', 'values')}"]
     n_ops = sum(len(h) for h in case["hists"])
     t.append(f"ops:{n_ops // 10 * 10}+")
     return t
